@@ -133,8 +133,9 @@ def World.step (w : World) : Ev → World × List FOut
       ({ w with chain := ch }, o)
   | .emit t =>
     if w.srcDone then (w, [])
-    else if w.slot && !finished w.chain then
-      -- the subject delivers a terminal only to entries with `!p_is_closed()`
+    else if w.slot then
+      -- the subject hands a terminal to every entry, whether the chain reports `is_finished()`
+      -- or not; the slot's `error/complete` takes the chain out (an emptied slot does nothing)
       let (ch, o) := runElems w.chain [.n t]
       ({ w with srcDone := true, slot := false, chain := ch }, o)
     else ({ w with srcDone := true }, [])
@@ -150,6 +151,26 @@ def World.run (w : World) : List Ev → World × List FOut
   | e :: r =>
     let (w1, o1) := w.step e
     let (w2, o2) := World.run w1 r
+    (w2, o1 ++ o2)
+
+/-- The code BEFORE `fix: Subject::error/complete hand the terminal to every subscriber`: the subject
+    delivered a terminal only to entries with `!p_is_closed()`, i.e. not to a chain that reported
+    `is_finished()` (an operator below `finalize` had completed by itself) — that entry was dropped
+    without being told.  Not part of `step`; kept for the record of the defect (Props/C15.lean, end). -/
+def World.stepBefore (w : World) : Ev → World × List FOut
+  | .emit t@(.error _) | .emit t@(.complete) =>
+    if w.srcDone then (w, [])
+    else if w.slot && !finished w.chain then
+      let (ch, o) := runElems w.chain [.n t]
+      ({ w with srcDone := true, slot := false, chain := ch }, o)
+    else ({ w with srcDone := true }, [])
+  | e => w.step e
+
+def World.runBefore (w : World) : List Ev → World × List FOut
+  | [] => (w, [])
+  | e :: r =>
+    let (w1, o1) := w.stepBefore e
+    let (w2, o2) := World.runBefore w1 r
     (w2, o1 ++ o2)
 
 /-- The events after which the callback has to have run. -/
